@@ -50,6 +50,8 @@ def check_item(it):
         return dict(status='skipped', why=f'oracle: {ex}')
     nreach = len(spec[monos[0]]) - 1
     viol, checked, ran = [], 0, []
+    from concurrent.futures import ThreadPoolExecutor
+    jobs = []
     for vname, var in VARIANTS:
         s2 = src
         if var.get('types'):
@@ -71,7 +73,11 @@ def check_item(it):
             decl = {v: sorted(vals[v], key=lambda x: float(x)) for v in cond_vars if v in vals and len(vals[v]) <= 4 and all(x.is_number for x in vals[v])}
             if not decl or set(decl) != {v for v in cond_vars if v in sem_vars(prog)}: continue
             s2 = 'types\n' + '\n'.join(f'    {v} : Finite({", ".join(str(x) for x in xs)})' for v, xs in decl.items()) + '\nend\n' + src
-        st, out = common.run_probe('analyze.py', dict(src=s2, goals=[str(m) for m in monos], settings=var.get('settings'), solver=var.get('solver')), timeout=it['budget'])
+        jobs.append((vname, var, dict(src=s2, goals=[str(m) for m in monos], settings=var.get('settings'), solver=var.get('solver'))))
+    with ThreadPoolExecutor(max_workers=4) as tp:
+        futs = [(vname, var, tp.submit(common.run_probe, 'analyze.py', payload, it['budget'])) for vname, var, payload in jobs]
+        done = [(vname, var, f.result()) for vname, var, f in futs]
+    for vname, var, (st, out) in done:
         if st == 'timeout': continue
         if st != 'ok' or 'probe_error' in out: return dict(status='machinery-error', why=str(out))
         if 'parse_error' in out or 'normalize_error' in out: continue        # a refusal under an option is allowed
